@@ -177,8 +177,12 @@ func replayBatch(bin string, cands []*Candidate, deadline time.Duration) ([]Repl
 		sc := bufio.NewScanner(&buf)
 		sc.Buffer(make([]byte, 1<<20), 1<<24)
 		var tail []string
+		fatal := ""
 		for sc.Scan() {
 			l := sc.Text()
+			if fatal == "" && (strings.Contains(l, "stack overflow") || strings.Contains(l, "goroutine stack exceeds") || strings.HasPrefix(l, "fatal error:")) {
+				fatal = l
+			}
 			tail = append(tail, l)
 			if len(tail) > 12 {
 				tail = tail[1:]
@@ -215,7 +219,7 @@ func replayBatch(bin string, cands []*Candidate, deadline time.Duration) ([]Repl
 			// the process died inside candidate cur (fatal error, out of memory, stack overflow)
 			res[cur].Ran = true
 			res[cur].Status = "crash"
-			res[cur].Detail = strings.Join(tail, " | ")
+			res[cur].Detail = fatal + " | " + strings.Join(tail, " | ")
 			last = cur
 		}
 		if runErr == nil && last < len(cands)-1 && cur < 0 && last < from {
